@@ -3,6 +3,7 @@ package checks
 import (
 	"fmt"
 	"net/http"
+	"strings"
 	"os"
 	"path/filepath"
 	"sort"
@@ -63,6 +64,19 @@ func c10Alphabet() []c10Op {
 			ops = append(ops, c10Op{Kind: "scrape", Hash: h, N: n})
 		}
 	}
+	// a targets update arriving while a scrape of the same target is in flight
+	for _, h := range []uint64{1, 2} {
+		other := uint64(3)
+		oj := "j2"
+		for _, a := range [][]c10T{
+			{{h, "j1", "in_transfer"}},
+			{{h, "j1", ""}},
+			{},
+			{{h, "j1", ""}, {other, oj, ""}},
+		} {
+			ops = append(ops, c10Op{Kind: "scrape-during-update", Hash: h, N: 8, A: a})
+		}
+	}
 	ops = append(ops, c10Op{Kind: "restart"}, c10Op{Kind: "tick"})
 	return ops
 }
@@ -83,6 +97,20 @@ type c10Model struct {
 	Status map[uint64]*c10E
 	Stored []c10T
 	IdleAt *time.Time
+}
+
+func (m *c10Model) clone() *c10Model {
+	n := &c10Model{Status: map[uint64]*c10E{}, Stored: append([]c10T{}, m.Stored...)}
+	for h, e := range m.Status {
+		c := *e
+		c.Window = append([]int64{}, e.Window...)
+		n.Status[h] = &c
+	}
+	if m.IdleAt != nil {
+		t := *m.IdleAt
+		n.IdleAt = &t
+	}
+	return n
 }
 
 func (m *c10Model) apply(op c10Op, now time.Time) {
@@ -169,6 +197,8 @@ type c10Real struct {
 	jobs map[uint64]string
 	dir  string
 	setN func(n int)
+	// inflight, when set, runs once while the next scrape request is being served by the target
+	inflight func()
 }
 
 func c10Start(dir string) *c10Real {
@@ -178,6 +208,10 @@ func c10Start(dir string) *c10Real {
 	net := &rig.Targets{}
 	var cur int
 	net.Serve = func(req *http.Request) rig.Answer {
+		if f := r.inflight; f != nil {
+			r.inflight = nil
+			f()
+		}
 		if cur < 0 {
 			return rig.Answer{Status: 500}
 		}
@@ -212,6 +246,19 @@ func (r *c10Real) apply(op c10Op) error {
 		}
 		r.setN(op.N)
 		r.sc.Scrape(rig.ProxyURL(job, op.Hash, "http", fmt.Sprintf("t%d:80", op.Hash), "/metrics", nil))
+	case "scrape-during-update":
+		job := r.jobs[op.Hash]
+		if job == "" {
+			job = "j1"
+		}
+		r.setN(op.N)
+		var uerr error
+		r.inflight = func() {
+			uerr = r.apply(c10Op{Kind: "update", A: op.A})
+		}
+		r.sc.Scrape(rig.ProxyURL(job, op.Hash, "http", fmt.Sprintf("t%d:80", op.Hash), "/metrics", nil))
+		r.inflight = nil
+		return uerr
 	case "restart":
 		return r.sc.Restart(true)
 	case "tick":
@@ -274,6 +321,29 @@ func c10Run(dir string, ops []c10Op) (c10View, c10View, string, error) {
 	for _, op := range ops {
 		if err := real.apply(op); err != nil {
 			return c10View{}, c10View{}, "", fmt.Errorf("op %v: %v", op, err)
+		}
+		if op.Kind == "scrape-during-update" {
+			// linearizable: the outcome equals update-then-scrape or scrape-then-update
+			up, scr := c10Op{Kind: "update", A: op.A}, c10Op{Kind: "scrape", Hash: op.Hash, N: op.N}
+			m1, m2 := m.clone(), m.clone()
+			m1.apply(up, real.now)
+			m1.apply(scr, real.now)
+			m2.apply(scr, real.now)
+			m2.apply(up, real.now)
+			rv, _, err := real.view()
+			if err != nil {
+				return c10View{}, c10View{}, "", err
+			}
+			if k, _ := c10Compare(m1.view(), rv); k == "" {
+				m = m1
+			} else if k, _ := c10Compare(m2.view(), rv); k == "" {
+				m = m2
+			} else {
+				// neither order explains the state: report against update-then-scrape
+				_, key, _ := real.view()
+				return m1.view(), rv, key + "|INFLIGHT", nil
+			}
+			continue
 		}
 		m.apply(op, real.now)
 	}
@@ -357,6 +427,10 @@ func init() {
 							continue
 						}
 						if kind, detail := c10Compare(mv, rv); kind != "" {
+							if strings.HasSuffix(key, "|INFLIGHT") {
+								kind = "in-flight-update:" + kind
+								detail += " (an update arrived while the scrape was in flight; neither update-then-scrape nor scrape-then-update explains the state)"
+							}
 							r.Violate("C10:"+kind, kind, fmt.Sprintf("after %s: %s", chk.JSON(ops), detail), int64(len(ops)), &c10Replay{Property: "C10", Clause: kind, Ops: ops, Policy: policy, Model: mv, Real: rv, Detail: detail})
 						}
 						if !seen[key] {
